@@ -1,4 +1,4 @@
-import GnoVerif.Proofs.C43Dec
+import GnoVerif.Proofs.C43Prefix
 /-!
 C43 — multiplexed peer connections deliver each channel's messages intact and in order.
 
@@ -74,6 +74,36 @@ theorem delivery_exact_partial (P : Nat) (sd : List SDesc) (rd : List RDesc) (ac
       obtain ⟨h1, h2⟩ := hi.other ch hno
       rw [acceptedOn_eq, deliveredOn_eq, h1, h2]
 
+
+/-- The same at EVERY moment: the receiver has read any prefix of the bytes written so far — it may
+    lag behind, the prefix may end in the middle of a frame (connection lost there) — cut into
+    non-empty reads in any way: no error, and each channel's deliveries are a prefix of the messages
+    accepted on it (nothing duplicated, reordered, modified or invented).  Same guards as above. -/
+theorem delivery_safe_any_prefix_partial (P : Nat) (sd : List SDesc) (rd : List RDesc) (acts : List Act)
+    (chunks : List Bytes) (hcfg : CfgOK P sd rd) (hacts : ∀ a ∈ acts, ActOK rd a)
+    (hne : ∀ c ∈ chunks, c ≠ [])
+    (hpre : chunks.flatten <+: wireOf ((initRun P sd).run acts).out) :
+    ((mkRecv P rd).feedChunks chunks).err = none ∧
+    ∀ ch, ((mkRecv P rd).feedChunks chunks).deliveredOn ch <+: ((initRun P sd).run acts).acceptedOn ch := by
+  obtain ⟨hP0, hP1, hsd, hrd, hsub⟩ := hcfg
+  have hout : ((initRun P sd).run acts).out = (initRun P sd).emits acts := by
+    rw [SRun.run_out]; rfl
+  rw [hout] at hpre
+  rw [Recv.feedChunks_nonempty _ _ hne]
+  exact Inv.safe_prefix hP0 hP1 acts (initRun P sd) (mkRecv P rd) (Inv.init P sd rd hsd hrd hsub) hacts _ hpre
+
+/-- non-vacuity: a stream cut in the middle of the second frame of a 3-packet message. -/
+example :
+    let sd : List SDesc := [⟨1, 1, 1⟩]
+    let rd : List RDesc := [⟨1, 5⟩]
+    let acts : List Act := [.send 1 [1, 2, 3, 4, 5], .step 0, .step 0, .step 0, .send 1 [6], .step 0]
+    let wire := wireOf ((initRun 2 sd).run acts).out
+    let chunks := [wire.take 7, (wire.drop 7).take 20]
+    CfgOK 2 sd rd ∧ (∀ a ∈ acts, ActOK rd a) ∧ (∀ c ∈ chunks, c ≠ []) ∧ chunks.flatten <+: wire ∧
+    chunks.flatten ≠ wire ∧ ((mkRecv 2 rd).feedChunks chunks).deliveredOn 1 = [] ∧
+    ((mkRecv 2 rd).feedChunks [wire]).deliveredOn 1 = [[1, 2, 3, 4, 5], [6]] := by
+  unfold CfgOK
+  set_option maxRecDepth 100000 in decide
 
 /-- the hypotheses of `delivery_exact_partial` are satisfiable by a non-trivial run: two channels,
     payload 2, a 5-byte message cut into 3 packets interleaved with a 1-byte message and a ping,
